@@ -11,6 +11,8 @@ from vlib.ops import LINEAR, TREE_COMPATIBLE
 EXACT_METRICS = ["cityblock", "chebyshev", "sqeuclidean", "euclidean"]
 # for differential checks that need no exact distance oracle: metrics with data-dependent parameters (seuclidean,
 # mahalanobis estimate a variance / covariance from the rows they are given), ratios and boolean metrics included
+# metrics that never raise on small data (undefined distances come out as NaN instead)
+SAFE_METRICS = EXACT_METRICS + ["cosine", "correlation", "canberra", "braycurtis", "minkowski", "hamming", "cosine"]
 MANY_METRICS = EXACT_METRICS + ["seuclidean", "mahalanobis", "cosine", "correlation", "canberra", "braycurtis",
                                 "minkowski", "hamming", "seuclidean", "mahalanobis"]
 
